@@ -108,12 +108,32 @@ func missingBlobs(c *Ctx, prop string, minimal bool) {
 		return
 	}
 	maxMask := 1 << n
+	// file blobs of one directory output: every subset of them is run in the quick tier too
+	// (a restore in which every file of the directory fails at once)
+	groupMask := map[string]int{}
+	contents := map[string]string{"one": "flat", "two": "flat", "three": "flat", "top": "nested", "mid": "nested", "deep": "nested", "same": "nested"}
+	for i, e := range entries {
+		if b, err := os.ReadFile(filepath.Join(pre.CacheDir(), e)); err == nil && len(b) < 16 {
+			if g, ok := contents[string(b)]; ok {
+				groupMask[g] |= 1 << i
+			}
+		}
+	}
+	c.R.Set("file_blobs_per_directory_output", map[string]int{"flat": popcount(groupMask["flat"]), "nested": popcount(groupMask["nested"])})
+	withinOneGroup := func(mask int) bool {
+		for _, g := range groupMask {
+			if mask&^g == 0 {
+				return true
+			}
+		}
+		return false
+	}
 	var wg sync.WaitGroup
 	var hangs int32
 	sem := make(chan struct{}, 40)
 	for mask := 1; mask < maxMask; mask++ {
-		if !c.Thorough && popcount(mask) > 3 && popcount(mask) < n-1 {
-			continue // quick: all subsets of size <= 3, and the (almost) full set
+		if !c.Thorough && popcount(mask) > 3 && popcount(mask) < n-1 && !withinOneGroup(mask) {
+			continue // quick: all subsets of size <= 3, the (almost) full set, every subset of one directory output's file blobs
 		}
 		if atomic.LoadInt32(&hangs) >= 2 {
 			c.R.Cap("two builds hung: the remaining cache-entry subsets were not run")
